@@ -559,7 +559,7 @@ impl G {
                 // xchg / xadd / cmpxchg [r], r
                 self.add("xchg", "xchg", sz, format!("(IXchg {} {} {})", sz, mm.coq(), d.coq()), format!("xchg {}, {}", mm.text(sz), d.text(sz)), vec![mm.clone(), d.clone()],
                     Enc { mode: m, opsz: sz, def64: false, pre: &[], opc: &[0x86 + w], reg: Some(G::regf(&d, sz)), rm: Some((&mm, false)), plusr: None, imm: vec![] }, 0);
-                self.add("nospec-xadd", "xadd", sz, "(INoSpec 15)".into(), format!("xadd {}, {}", mm.text(sz), d.text(sz)), vec![mm.clone(), d.clone()],
+                self.add("xadd", "xadd", sz, format!("(IXadd {} {} {})", sz, mm.coq(), d.coq()), format!("xadd {}, {}", mm.text(sz), d.text(sz)), vec![mm.clone(), d.clone()],
                     Enc { mode: m, opsz: sz, def64: false, pre: &[], opc: &[0x0F, 0xC0 + w], reg: Some(G::regf(&d, sz)), rm: Some((&mm, false)), plusr: None, imm: vec![] }, 0);
                 self.add("nospec-cmpxchg", "cmpxchg", sz, "(INoSpec 15)".into(), format!("cmpxchg {}, {}", mm.text(sz), d.text(sz)), vec![mm.clone(), d.clone()],
                     Enc { mode: m, opsz: sz, def64: false, pre: &[], opc: &[0x0F, 0xB0 + w], reg: Some(G::regf(&d, sz)), rm: Some((&mm, false)), plusr: None, imm: vec![] }, 0);
@@ -586,7 +586,7 @@ impl G {
             // same-register pairs of the two-register forms that reg_pairs does not reach
             let r = if sz == 8 && m == Mode::M32 { self.r.below(4) as u8 } else { self.gp_nosp() };
             let d = Op::Reg(r);
-            self.add("nospec-xadd", "xadd", sz, "(INoSpec 15)".into(), format!("xadd {}, {}", d.text(sz), d.text(sz)), vec![d.clone(), d.clone()],
+            self.add("xadd", "xadd", sz, format!("(IXadd {} {} {})", sz, d.coq(), d.coq()), format!("xadd {}, {}", d.text(sz), d.text(sz)), vec![d.clone(), d.clone()],
                 Enc { mode: m, opsz: sz, def64: false, pre: &[], opc: &[0x0F, 0xC0 + w], reg: Some(G::regf(&d, sz)), rm: Some((&d, sz == 8)), plusr: None, imm: vec![] }, 0);
             self.add("nospec-cmpxchg", "cmpxchg", sz, "(INoSpec 15)".into(), format!("cmpxchg {}, {}", d.text(sz), d.text(sz)), vec![d.clone(), d.clone()],
                 Enc { mode: m, opsz: sz, def64: false, pre: &[], opc: &[0x0F, 0xB0 + w], reg: Some(G::regf(&d, sz)), rm: Some((&d, sz == 8)), plusr: None, imm: vec![] }, 0);
@@ -597,7 +597,7 @@ impl G {
             if sz == 8 {
                 let x = self.r.below(4) as u8;
                 for (a, b) in [(Op::RegH(x), Op::Reg(x)), (Op::Reg(x), Op::RegH(x)), (Op::RegH(x), Op::RegH(x))] {
-                    self.add("nospec-xadd", "xadd", 8, "(INoSpec 15)".into(), format!("xadd {}, {}", a.text(8), b.text(8)), vec![a.clone(), b.clone()],
+                    self.add("xadd", "xadd", 8, format!("(IXadd 8 {} {})", a.coq(), b.coq()), format!("xadd {}, {}", a.text(8), b.text(8)), vec![a.clone(), b.clone()],
                         Enc { mode: m, opsz: 8, def64: false, pre: &[], opc: &[0x0F, 0xC0], reg: Some(G::regf(&b, 8)), rm: Some((&a, true)), plusr: None, imm: vec![] }, 0);
                 }
             }
@@ -700,6 +700,70 @@ impl G {
             }
         }
     }
+    /// round 6: every instruction with an imm8 count or selector gets the boundary immediates
+    /// {0, 1, size-1, size, size+1, 15, 16, 17, 31, 32, 33, 63, 64, 65, 0x7f, 0x80, 0xff} as priority forms
+    fn imm_boundary(&mut self) {
+        let m = self.mode;
+        const GLOBAL: [u64; 14] = [0, 1, 15, 16, 17, 31, 32, 33, 63, 64, 65, 0x7f, 0x80, 0xff];
+        // 32-bit mode runs the same builders and has no processor oracle: a reduced list there
+        const SHORT: [u64; 8] = [0, 1, 31, 32, 33, 0x7f, 0x80, 0xff];
+        let lists = |sizes: &[u8]| -> Vec<(u8, u64)> {
+            let mut l: Vec<(u8, u64)> = vec![];
+            if m == Mode::M64 {
+                for &sz in sizes { for v in [sz as u64 - 1, sz as u64, sz as u64 + 1] { l.push((sz, v)); } }
+                for (i, v) in GLOBAL.iter().enumerate() { l.push((sizes[i % sizes.len()], *v)); }
+            } else {
+                for (i, v) in SHORT.iter().enumerate() { l.push((sizes[i % sizes.len()], *v)); }
+            }
+            l
+        };
+        let sizes = self.sizes();
+        let wsizes = self.wsizes();
+        for (c, mn, digit) in [("SRol", "rol", 0u8), ("SRor", "ror", 1), ("SShl", "shl", 4), ("SShr", "shr", 5), ("SSar", "sar", 7)] {
+            for (sz, cnt) in lists(&sizes) {
+                let w = if sz == 8 { 0 } else { 1 };
+                let d = if self.r.chance(1, 3) { self.memr() } else { self.rop(sz, false) };
+                self.add("shift-imm", mn, sz, format!("(IShift {} {} {} (OImm {}))", c, sz, d.coq(), cnt), format!("{} {}, 0x{:x}", mn, d.text(sz), cnt), vec![d.clone()],
+                    Enc { mode: m, opsz: sz, def64: false, pre: &[], opc: &[0xC0 + w], reg: Some(RegF::Digit(digit)), rm: Some((&d, sz == 8)), plusr: None, imm: imm_bytes(cnt, 1) }, cnt as i64);
+            }
+        }
+        for (mn, left, opc_i) in [("shld", "true", 0xA4u8), ("shrd", "false", 0xAC)] {
+            for (sz, cnt) in lists(&wsizes) {
+                let d = if self.r.chance(1, 3) { self.memr() } else { Op::Reg(self.gp()) };
+                let s = self.gp_nosp();
+                self.add("shxd", mn, sz, format!("(IShxd {} {} {} {} (OImm {}))", left, sz, d.coq(), s, cnt), format!("{} {}, {}, 0x{:x}", mn, d.text(sz), regname(s, sz), cnt), vec![d.clone(), Op::Reg(s)],
+                    Enc { mode: m, opsz: sz, def64: false, pre: &[], opc: &[0x0F, opc_i], reg: Some(RegF::R(s, false)), rm: Some((&d, false)), plusr: None, imm: imm_bytes(cnt, 1) }, cnt as i64);
+            }
+        }
+        for (c, mn, digit) in [("BtT", "bt", 4u8), ("BtS", "bts", 5), ("BtR", "btr", 6), ("BtC", "btc", 7)] {
+            for (sz, cnt) in lists(&wsizes) {
+                let d = if self.r.chance(1, 3) { self.memr() } else { Op::Reg(self.gp()) };
+                self.add("bt", mn, sz, format!("(IBt {} {} {} (OImm {}))", c, sz, d.coq(), cnt), format!("{} {}, 0x{:x}", mn, d.text(sz), cnt), vec![d.clone()],
+                    Enc { mode: m, opsz: sz, def64: false, pre: &[], opc: &[0x0F, 0xBA], reg: Some(RegF::Digit(digit)), rm: Some((&d, false)), plusr: None, imm: imm_bytes(cnt, 1) }, cnt as i64);
+            }
+        }
+        let w = m.word();
+        for v in if m == Mode::M64 { vec![1u64, 2, 0x7f, 0x80, 0xff, 0x100, 0x7ff8, 0x8000, 0xfff8] } else { vec![] } {
+            self.add("ret", "ret", w, format!("(IRet {})", v), format!("ret 0x{:x}", v), vec![], Enc { opc: &[0xC2], imm: imm_bytes(v, 2), ..none_enc(m) }, v as i64);
+        }
+        if m == Mode::M64 {
+            // SSE byte shifts (the count is in BYTES: anything above 15 clears the register) and the pshufd selector
+            for sh in [0u64, 1, 7, 8, 9, 15, 16, 17, 31, 32, 33, 63, 64, 65, 0x7f, 0x80, 0xff, 0x20, 0x41, 0xe3] {
+                let x = self.r.below(16) as u8;
+                self.forms_sse("nospec-sse", "pslldq", format!("pslldq xmm{}, {}", x, sh), vec![Op::Reg(x)],
+                    Enc { mode: m, opsz: 128, def64: false, pre: &[0x66], opc: &[0x0F, 0x73], reg: Some(RegF::Digit(7)), rm: Some((&Op::Reg(x), false)), plusr: None, imm: imm_bytes(sh, 1) }, 128);
+                let x = self.r.below(16) as u8;
+                self.forms_sse("nospec-sse", "psrldq", format!("psrldq xmm{}, {}", x, sh), vec![Op::Reg(x)],
+                    Enc { mode: m, opsz: 128, def64: false, pre: &[0x66], opc: &[0x0F, 0x73], reg: Some(RegF::Digit(3)), rm: Some((&Op::Reg(x), false)), plusr: None, imm: imm_bytes(sh, 1) }, 128);
+            }
+            for imm in [0u64, 1, 15, 16, 17, 31, 32, 33, 63, 64, 65, 0x7f, 0x80, 0xff, 0x1b, 0xe4, 0x4e, 0xb1, 0x55, 0xaa] {
+                let x = self.r.below(16) as u8;
+                let s = if self.r.chance(1, 3) { self.memr() } else { Op::Reg(self.r.below(16) as u8) };
+                self.forms_sse("nospec-sse", "pshufd", format!("pshufd xmm{}, {}, 0x{:x}", x, s.text(128), imm), vec![Op::Reg(x), s.clone()],
+                    Enc { mode: m, opsz: 128, def64: false, pre: &[0x66], opc: &[0x0F, 0x70], reg: Some(RegF::R(x, false)), rm: Some((&s, false)), plusr: None, imm: imm_bytes(imm, 1) }, 128);
+            }
+        }
+    }
     fn memr(&mut self) -> Op {
         let k = self.r.below(8);
         self.mem(k)
@@ -794,7 +858,8 @@ impl G {
             }
             if sz > 8 {
                 let r = 1 + self.r.below(self.mode.nregs() - 1) as u8;
-                self.add("xchg", "xchg", sz, format!("(IXchg {} (OReg 0) (OReg {}))", sz, r), format!("xchg {}, {}", regname(0, sz), regname(r, sz)), vec![Op::Reg(0), Op::Reg(r)],
+                // capstone's operand order for 90+r is (r, accumulator); the lifter follows it
+                self.add("xchg", "xchg", sz, format!("(IXchg {} (OReg {}) (OReg 0))", sz, r), format!("xchg {}, {}", regname(r, sz), regname(0, sz)), vec![Op::Reg(r), Op::Reg(0)],
                     Enc { mode: m, opsz: sz, def64: false, pre: &[], opc: &[0x90], reg: None, rm: None, plusr: Some((r, false)), imm: vec![] }, 0);
             }
         }
@@ -933,7 +998,7 @@ impl G {
                         self.add("shift-imm", mn, sz, format!("(IShift {} {} {} (OImm {}))", c, sz, d.coq(), cnt), format!("{} {}, 0x{:x}", mn, d.text(sz), cnt), vec![d.clone()],
                             Enc { mode: m, opsz: sz, def64: false, pre: &[], opc: &[0xC0 + w], reg: Some(RegF::Digit(digit)), rm: Some((&d, sz == 8)), plusr: None, imm: imm_bytes(cnt, 1) }, cnt as i64);
                     }
-                    self.add("shift-imm", mn, sz, format!("(IShift {} {} {} (OImm 1))", c, sz, d.coq()), format!("{} {}, 1", mn, d.text(sz)), vec![d.clone()],
+                    self.add("shift-imm", mn, sz, format!("(IShift1 {} {} {})", c, sz, d.coq()), format!("{} {}, 1", mn, d.text(sz)), vec![d.clone()],
                         Enc { mode: m, opsz: sz, def64: false, pre: &[], opc: &[0xD0 + w], reg: Some(RegF::Digit(digit)), rm: Some((&d, sz == 8)), plusr: None, imm: vec![] }, 1);
                     self.add("shift-cl", mn, sz, format!("(IShift {} {} {} (OReg 1))", c, sz, d.coq()), format!("{} {}, cl", mn, d.text(sz)), vec![d.clone()],
                         Enc { mode: m, opsz: sz, def64: false, pre: &[], opc: &[0xD2 + w], reg: Some(RegF::Digit(digit)), rm: Some((&d, sz == 8)), plusr: None, imm: vec![] }, -1);
@@ -1005,7 +1070,7 @@ impl G {
                 let s = self.rop(sz, false);
                 self.add("nospec-cmpxchg", "cmpxchg", sz, "(INoSpec 15)".into(), format!("cmpxchg {}, {}", d.text(sz), s.text(sz)), vec![d.clone(), s.clone()],
                     Enc { mode: m, opsz: sz, def64: false, pre: &[], opc: &[0x0F, 0xB0 + w], reg: Some(G::regf(&s, sz)), rm: Some((&d, sz == 8)), plusr: None, imm: vec![] }, 0);
-                self.add("nospec-xadd", "xadd", sz, "(INoSpec 15)".into(), format!("xadd {}, {}", d.text(sz), s.text(sz)), vec![d.clone(), s.clone()],
+                self.add("xadd", "xadd", sz, format!("(IXadd {} {} {})", sz, d.coq(), s.coq()), format!("xadd {}, {}", d.text(sz), s.text(sz)), vec![d.clone(), s.clone()],
                     Enc { mode: m, opsz: sz, def64: false, pre: &[], opc: &[0x0F, 0xC0 + w], reg: Some(G::regf(&s, sz)), rm: Some((&d, sz == 8)), plusr: None, imm: vec![] }, 0);
             }
         }
@@ -1073,7 +1138,7 @@ impl G {
         // SSE encodings: the 0x66 operand-size prefix is part of `pre`; opsz only selects REX.W
         let e2 = Enc { opsz: if e.opsz == 64 { 64 } else { 32 }, ..e };
         if let Some(bytes) = enc(&e2) {
-            self.forms.push(Form { mode: self.mode, coq: "(INoSpec 15)".into(), text, bytes, class, mnem: mnem.into(), sz: mbits, ops, sse: true, aux: 0, alias: false });
+            self.forms.push(Form { mode: self.mode, coq: "(INoSpec 15)".into(), text, bytes, class, mnem: mnem.into(), sz: mbits, ops, sse: true, aux: 0, alias: self.in_alias });
         }
     }
 }
@@ -1089,6 +1154,7 @@ fn all_forms(mode: Mode, seed: u64) -> Vec<Form> {
     g.in_alias = true;
     g.aliasing();
     g.addr_size();
+    g.imm_boundary();
     g.forms
 }
 
@@ -1173,7 +1239,7 @@ fn sample(f: &Form, r: &mut Rng, k: usize) -> Sample {
     match f.class {
         "shift-cl" | "shxd" => {
             let rnd = r.below(256);
-            let c = *r.pick(&[0u64, 1, 2, (sz as u64).wrapping_sub(1), sz as u64, sz as u64 + 1, 31, 32, 33, 63, 64, 65, 0x80, 0xff, rnd]) & 0xff;
+            let c = *r.pick(&[0u64, 1, 2, (sz as u64).wrapping_sub(1), sz as u64, sz as u64 + 1, 15, 16, 17, 31, 32, 33, 63, 64, 65, 0x7f, 0x80, 0xff, rnd]) & 0xff;
             s.g[1] = (s.g[1] & !0xff) | c;
         }
         "string" | "string-rep" => {
@@ -1516,14 +1582,15 @@ fn main() {
     let mut perm: Vec<usize> = (0..nforms).collect();
     let mut pr = Rng::for_case(args.seed, 0x7fff_fff0);
     for i in (1..nforms).rev() { let j = pr.below(i as u64 + 1) as usize; perm.swap(i, j); }
-    // operand-aliasing forms are visited first, interleaved 1 : 2 with the rest, so that the quick tier reaches all of them
+    // priority forms (operand aliasing, address-size prefixes, boundary immediates) are visited first, interleaved 1 : 1 with
+    // the rest, so that the quick tier (2 000 encodings) reaches all of them
     {
         let (al, rest): (Vec<usize>, Vec<usize>) = perm.iter().partition(|k| forms[**k].alias);
         let (mut ia, mut ir) = (0, 0);
         let mut out = Vec::with_capacity(nforms);
         while ia < al.len() || ir < rest.len() {
             if ia < al.len() { out.push(al[ia]); ia += 1; }
-            for _ in 0..2 { if ir < rest.len() { out.push(rest[ir]); ir += 1; } }
+            if ir < rest.len() { out.push(rest[ir]); ir += 1; }
         }
         perm = out;
     }
@@ -1592,7 +1659,11 @@ fn main() {
             let alu6 = ["add", "sub", "cmp", "and", "or", "xor", "adc", "sbb"].contains(&f.mnem.as_str());
             let mirrored = (f.class == "mov" && two_op_shape)
                 || (f.class == "alu" && alu6 && two_op_shape)
-                || (f.class == "unary" && ["inc", "dec"].contains(&f.mnem.as_str()) && o0.map_or(false, |d| regop(d) || memok(d)))
+                || (f.class == "alu" && f.mnem == "test" && o0.map_or(false, |d| regop(d) || memok(d)) && src_regimm)
+                || ((f.class == "xchg" || f.class == "xadd") && o0.map_or(false, |d| regop(d) || memok(d)) && o1.map_or(false, |d| regop(d)))
+                || (f.class == "mul" && f.mnem == "imul" && (f.coq.starts_with("(IImul2") || f.coq.starts_with("(IImul3")) && o1.map_or(false, |d| regop(d) || memok(d)))
+                || ((f.class == "shift-imm" || f.class == "shift-cl") && ["shl", "shr", "sar"].contains(&f.mnem.as_str()) && o0.map_or(false, |d| regop(d) || memok(d)))
+                || (f.class == "unary" && ["inc", "dec", "neg", "not"].contains(&f.mnem.as_str()) && o0.map_or(false, |d| regop(d) || memok(d)))
                 || (f.class == "setcc" && o0.map_or(false, |d| regop(d)))
                 || (f.class == "movx" && o1.map_or(false, |o| regop(o) || memok(o)))
                 || (f.class == "lea" && o1.map_or(false, |o| memok(o)))
